@@ -107,6 +107,16 @@ func (c Cfg) extenders() []goldmark.Extender {
 	if c.has('f') {
 		exts = append(exts, extension.Footnote)
 	}
+	if c.has('F') { // footnotes with templated options (^^ = index, %% = reference count) and an id prefix
+		exts = append(exts, extension.NewFootnote(
+			extension.WithFootnoteIDPrefix("p-"),
+			extension.WithFootnoteLinkTitle("note ^^ of %%"),
+			extension.WithFootnoteBacklinkTitle("back ^^ (%% refs)"),
+			extension.WithFootnoteLinkClass("fr fr-^^"),
+			extension.WithFootnoteBacklinkClass("fb fb-%%"),
+			extension.WithFootnoteBacklinkHTML("^^/%%"),
+		))
+	}
 	if c.has('y') {
 		exts = append(exts, extension.Typographer)
 	}
@@ -158,12 +168,15 @@ func (c Cfg) ModelCfg() (string, string) {
 		ea = 2
 	}
 	o := b2s(c.Unsafe) + b2s(c.XHTML) + b2s(c.HardWraps) + string(rune('0'+ea)) + b2s(c.has('e')) + string(rune('0'+c.TableAlign))
-	e := b2s(c.has('t')) + b2s(c.has('s')) + b2s(c.has('k')) + b2s(c.has('d')) + b2s(c.has('f'))
+	e := b2s(c.has('t')) + b2s(c.has('s')) + b2s(c.has('k')) + b2s(c.has('d')) + b2s(c.has('f') || c.has('F'))
+	if c.has('F') {
+		e += "F"
+	}
 	return o, e
 }
 
 // extension sets of the lattice
-var extSets = []string{"", "tskl", "t", "s", "k", "l", "d", "f", "y", "1", "2", "e", "tskldfy", "tskldfy1e", "tskldfy2e"}
+var extSets = []string{"", "tskl", "t", "s", "k", "l", "d", "f", "F", "y", "1", "2", "e", "tskldfy", "tskldFy", "tskldfy1e", "tskldfy2e"}
 
 // CornerCfgs: the configurations quick tiers use.
 func CornerCfgs() []Cfg {
